@@ -2,6 +2,9 @@
 //! properties: C05
 //! note: "fully signed newer commitment": the signature checks of ChannelContext::validate_commitment_signed (the only verifier of a peer's commitment_signed: plain, batched splice and initial splice commitments all pass through it)
 //! trusted: R15 (statement slicing): validate_commitment_signed builds bitcoin transactions and sighashes through rust-bitcoin/secp256k1; the unit extracts, on every run, its three checks verbatim - the commitment signature test, the HTLC-signature count test and the per-HTLC signature test inside the zip loop - in their original order; building the transactions, the fee check (validate_update_fee), HolderCommitmentTransaction::new and the signer's validate_holder_commitment are dropped and not claimed; the dropped statements between and after the first check are matched with a capture kind that refuses return / break / continue, so nothing dropped can leave the function or the loop early with Ok
+//! trusted: R15 (statement slicing): revoke_and_ack: the unit extracts the statements from `let secret = ..` to the signer validation (the two acceptance gates), the provide_secret call and the three statements advancing the counterparty's commitment number and points, verbatim and in order; the state pre-checks before them (quiescent / not ready / disconnected / closing: all early Err returns), the signer's validate_counterparty_revocation, the monitor update and the HTLC state walk after them are dropped and not claimed; secp_check!(SecretKey::from_slice(..)) becomes the parameter `secret` (any valid scalar)
+//! trusted: env (revoke_and_ack): PublicKey::from_secret_key is external_body returning the uninterpreted point_of(secret); PublicKey equality is structural; ChannelState skeleton {awaiting_remote_revoke}; CounterpartyCommitmentSecrets::provide_secret (verified in u05a) is a stub recording (idx, secret) in a ghost log; mark_response_received external_body (frame: context untouched); ChannelError::close loses its message
+//! assume: 1 <= counterparty_next_commitment_transaction_number < 2^48
 //! trusted: R6: `for (htlc, counterparty_sig) in A.iter().zip(B.iter())` becomes an index loop over min(A.len(), B.len()) (std semantics of Iterator::zip) with the two bindings taken by index
 //! trusted: env: Secp256k1::verify_ecdsa is external_body whose result is Ok exactly when the uninterpreted predicate sig_valid(msg, sig, key) holds (any signature scheme); the sighash of the commitment transaction and the sighash of each second-stage HTLC transaction are opaque values (commitment_sighash / htlc_sighash_of(htlc), uninterpreted functions of the built transaction / the HTLC); PublicKey, Signature, Message opaque; CommitmentSigned skeleton {signature, htlc_signatures}; CommitmentTransaction skeleton with external_body nondust_htlcs() returning the stored list
 use vstd::prelude::*;
@@ -71,6 +74,82 @@ impl ChannelContext {
     msg.htlc_signatures.len() != commitment_data.tx.nondust_htlcs().len()
 //@with
     msg.htlc_signatures.len() > commitment_data.tx.nondust_htlcs().len()
+//@end
+}
+
+// ---- accepting the peer's revocation (R15 slice of FundedChannel::revoke_and_ack) ----
+impl vstd::std_specs::cmp::PartialEqSpecImpl for PublicKey { open spec fn obeys_eq_spec() -> bool { true } open spec fn eq_spec(&self, other: &PublicKey) -> bool { *self == *other } }
+impl PartialEq for PublicKey { #[verifier::external_body] fn eq(&self, o: &PublicKey) -> (r: bool) { self.0 == o.0 } }
+#[derive(Clone, Copy)] pub struct SecretKey(pub [u8; 32]);
+// the per-commitment point of a per-commitment secret (secp256k1 scalar multiplication; opaque)
+pub uninterp spec fn point_of(s: SecretKey) -> PublicKey;
+impl PublicKey {
+    #[verifier::external_body] pub fn from_secret_key(_ctx: &Secp256k1, s: &SecretKey) -> (r: PublicKey) ensures r == point_of(*s) { unimplemented!() }
+}
+pub struct ChannelState { pub awaiting_remote_revoke: bool }
+impl ChannelState {
+    #[verifier::external_body] pub fn is_awaiting_remote_revoke(&self) -> (r: bool) ensures r == self.awaiting_remote_revoke { unimplemented!() }
+    #[verifier::external_body] pub fn clear_awaiting_remote_revoke(&mut self) ensures !final(self).awaiting_remote_revoke { unimplemented!() }
+}
+// CounterpartyCommitmentSecrets::provide_secret is verified in unit u05a; here only what it was asked to store is recorded
+pub struct CounterpartyCommitmentSecrets { pub asked: Ghost<Seq<(u64, [u8; 32])>> }
+impl CounterpartyCommitmentSecrets {
+    #[verifier::external_body]
+    pub fn provide_secret(&mut self, idx: u64, secret: [u8; 32]) -> (r: Result<(), ()>)
+        ensures r is Ok ==> final(self).asked@ == old(self).asked@.push((idx, secret)), r is Err ==> final(self).asked@ == old(self).asked@
+    { unimplemented!() }
+}
+pub struct RevokeAndACK { pub per_commitment_secret: [u8; 32], pub next_per_commitment_point: PublicKey }
+pub struct RaaContext {
+    pub secp_ctx: Secp256k1, pub channel_state: ChannelState, pub commitment_secrets: CounterpartyCommitmentSecrets,
+    pub counterparty_current_commitment_point: Option<PublicKey>, pub counterparty_next_commitment_point: Option<PublicKey>,
+    pub counterparty_next_commitment_transaction_number: u64,
+}
+pub struct FundedChannel { pub context: RaaContext }
+impl FundedChannel {
+    #[verifier::external_body] pub fn mark_response_received(&mut self) ensures final(self).context == old(self).context { unimplemented!() }
+//@extract lightning/src/ln/channel.rs :: impl FundedChannel :: fn revoke_and_ack
+//@strip msgs
+//@rw R15
+    fn revoke_and_ack<F: FeeEstimator, L: Logger>($params:any) -> $ret { $p0:any let secret = secp_check!($sk); $gates:any self.context .holder_signer .validate_counterparty_revocation($va) .map_err($vm)?; self.context .commitment_secrets .provide_secret($pa) .map_err(|_| { $pm })?; $mon:straight self.context.channel_state.clear_awaiting_remote_revoke(); self.mark_response_received(); $adv:straight if self.context.announcement_sigs_state == $as { $asb:any } $rest:any }
+//@with
+    fn accept_revocation(&mut self, msg: &RevokeAndACK, secret: SecretKey) -> Result<(), ChannelError> {
+        $gates
+        self.context.commitment_secrets.provide_secret($pa).map_err(|_e: ()| -> (o: ChannelError) { $pm })?;
+        self.context.channel_state.clear_awaiting_remote_revoke();
+        self.mark_response_received();
+        $adv
+        Ok(())
+    }
+//@rw R8 *
+    ChannelError::close($m)
+//@with
+    ChannelError::close(0)
+//@ret r
+//@requires
+    1 <= old(self).context.counterparty_next_commitment_transaction_number < 0x1_0000_0000_0000,
+//@ensures P C05 a-revocation-is-accepted-only-when-one-is-due-its-secret-matches-the-point-the-peer-committed-to-and-it-is-stored-under-that-commitments-number
+    r is Ok ==> old(self).context.channel_state.awaiting_remote_revoke
+        && (old(self).context.counterparty_current_commitment_point is Some ==> point_of(secret) == old(self).context.counterparty_current_commitment_point->Some_0)
+        && final(self).context.commitment_secrets.asked@ == old(self).context.commitment_secrets.asked@.push(
+               ((old(self).context.counterparty_next_commitment_transaction_number + 1) as u64, msg.per_commitment_secret)),
+//@ensures P C05 accepting-a-revocation-advances-the-peers-commitment-number-by-exactly-one-and-rotates-its-points
+    r is Ok ==> final(self).context.counterparty_next_commitment_transaction_number == old(self).context.counterparty_next_commitment_transaction_number - 1
+        && final(self).context.counterparty_current_commitment_point == old(self).context.counterparty_next_commitment_point
+        && final(self).context.counterparty_next_commitment_point == Some(msg.next_per_commitment_point)
+        && !final(self).context.channel_state.awaiting_remote_revoke,
+//@mutant unexpected_revocation_accepted
+    if !self.context.channel_state.is_awaiting_remote_revoke() {
+//@with
+    if false {
+//@mutant secret_stored_under_the_wrong_number
+    self.context.counterparty_next_commitment_transaction_number + 1, msg.per_commitment_secret,
+//@with
+    self.context.counterparty_next_commitment_transaction_number, msg.per_commitment_secret,
+//@mutant secret_not_compared_with_the_committed_point
+    != counterparty_current_commitment_point
+//@with
+    != counterparty_current_commitment_point && false
 //@end
 }
 }
